@@ -4,6 +4,22 @@ import json, os, subprocess
 V = os.path.dirname(os.path.dirname(os.path.abspath(__file__)))
 
 CHECKS = {
+ "C05": dict(cat="model_checking", ref="§6 C05",
+   technique="TLA+ spec ConnLifecycle.tla with explicit condition-variable semantics (parked / woken waiters re-check later) model-checked by TLC in the as-coded and repaired variants; fault-enumerated, model-derived and gated (verifhook scheduling point) scenario families replayed on the real connection with real streams; traces judged by the TLA+ monitor MonC05",
+   text="Design: with 2 outages, dial failures, resume refusals and an API caller, TokenPerDial, NoStreamDetached, CallersSurvive, NotificationsOnce hold in every state of the repaired model; the as-coded model yields the missed-outage counterexample, which is forced on the real code by holding the watcher goroutine at its start. Code: stream sets of both directions x dial outcome sequences x redial delay {0, 40 ms} x API request {none, during, interrupted} x optional second outage, plus TLC-simulated environment scripts; after recovery every stream is probed; the monitor checks fresh token per dial, resume per stream with original id/alias on the last incarnation or reported closed, request re-sent, notification counts.",
+   note="In-memory dial is faster than any network (fast-redial variant); keep-alive 100 ms / 100 ms; the spurious-outage-by-stale-error schedule of send() found by reading is modelled but has no natural gate and is not claimed."),
+ "C10": dict(cat="model_checking", ref="§6 C10",
+   technique="ConnLifecycle.tla with Close at every point model-checked by TLC (NoPanic, NoDialAfterClose, NoCallerParkedWhenClosed, NoSupervisorParkedWhenClosed, SilentAfterDisconnect); scenario families with Close at scripted and TLC-chosen points replayed one child process each with a goroutine census; traces judged by the TLA+ monitor MonC10",
+   text="Design: Close racing reconnect (dial, handshake, status swap), resume and API callers explored exhaustively; the as-coded model violates exactly the four invariants whose defects were repaired. Code: Close while idle / with open streams / with pending calls / during a gated redial (both outcomes) / during an unanswered resume / concurrently with stream Close / repeated; afterwards every API is called on the closed objects; the monitor checks sentinel errors within 1.5 s, nothing but keep-alive after Disconnect, no dial after Close, closed notifications at most once, empty goroutine census, process alive.",
+   note="Repeated/concurrent Close may return anything (weaker reading); census = goroutines with a library frame and no harness frame after the broker side was closed."),
+ "C06": dict(cat="model_checking", ref="§6 C06",
+   technique="implementation-shaped TLA+ spec ReqReply.tla (id generator, replyCh map, dispatcher, N callers, cancellation) model-checked by TLC; all maximal environment scripts for 3 callers and simulated ones for 4-8 replayed on wire.Connect over the in-memory pipe with a barrier broker; traces judged by the TLA+ monitor MonC06",
+   text="Design: IdsDistinctAndEven, OwnResponseOnly, SpuriousHarmless, CancelDoesNotSteal, DispatcherNeverBlocks for 3 callers (+ ping) over all response permutations, duplicates, spurious ids and cancellation points. Code: the broker collects all requests then answers in the scripted permutation with duplicates / unknown ids / delays; responses are stamped with request id and caller tag; the monitor checks id uniqueness and parity per connection, own-response-only, undisturbed bystanders, cancellation.",
+   note="Request ids restart at 0 on every wire incarnation (uniqueness is per connection); wire level (wire.Connect), seven request kinds."),
+ "C13": dict(cat="model_checking", ref="§6 C13",
+   technique="TLA+ specs WsWindowCore / StreamFramingCore (dictionary synchronisation, trimming, writer exclusivity, length-prefix framing) model-checked by TLC; TLC enumerates mode x level x window-bits x message-class sequences replayed lock-step on a real websocket.New pair (and quic stream transport over an in-memory connection) with window buffers, counters, raw frames and an independent compress/flate decoder compared by the TLA+ monitor MonC13",
+   text="Stateful part decided by the model: DictionariesEqual, WindowIsSuffix, ReadEqualsWrite, NoInterleave for all message-length class sequences to depth 6; byte fidelity of DEFLATE is the replay oracle only.",
+   note="WebTransport transport and real network backends (gorilla / nhooyr sockets, quic-go) are not exercised; the in-memory Conn serialises Writer() like the default coder backend."),
  "C03": dict(cat="model_checking", ref="§6 C03",
    technique="implementation-shaped TLA+ spec Downstream.tla (three critical sections of ReadDataPoints, alias tables, queue) model-checked by TLC; environment projections replayed on a real downstream against the in-memory broker; traces judged by the TLA+ monitor MonC03",
    text="Design: OnceEach, InOrderSingleReader, ResolvedRight (alias forms incl. pre-registered and never-announced aliases) hold over all chunk sequences up to 3 chunks x 2 upstreams x 2 data ids x full/alias forms with arbitrary read timing. Code: TLC-simulated broker sequences (full/alias switch-over at any point, bogus aliases, pre-registered ids) and metadata from two source nodes are replayed; the k-th read must equal the k-th chunk sent (sequence number, points with checksums, upstream info, data ids) or be an error for a bogus alias; metadata per source in order with acks.",
